@@ -151,7 +151,13 @@ pub fn run_cases(
         failure_persistence: None,
         rng_seed: RngSeed::Fixed(seed),
         // file-backed cases are expensive: bound the shrinking work there
-        max_shrink_iters: if matches!(ctx.prop.as_str(), "C08" | "C09") { 48 } else { 2000 },
+        // cases that enumerate hundreds of corruptions, cut points or fault positions (or touch files) are expensive:
+        // a bounded number of shrinking steps keeps a run on a tree where *every* subject fails within minutes
+        max_shrink_iters: match ctx.prop.as_str() {
+            "C08" | "C09" => 48,
+            "C10" | "C11" | "C12" | "C13" | "C14" | "C15" | "C18" => 96,
+            _ => 2000,
+        },
         max_global_rejects: 0,
         ..Config::default()
     };
